@@ -554,7 +554,55 @@ func runC09(p *Program, r *Report) {
 	}
 }
 
+// c10closes: a call blocked in a wait (not in transport I/O, which timeoutLoop covers) whose own
+// context ends must close the connection before returning, as documented on Conn.
+func c10closes(p *Program, r *Report, rule string) {
+	n := 0
+	for _, fn := range p.Funcs {
+		has := false
+		for _, b := range fn.Blocks {
+			for _, in := range b.Instrs {
+				if sel, ok := in.(*ssa.Select); ok && sel.Blocking {
+					for _, st := range sel.States {
+						if st.Dir == types.RecvOnly && isDoneCall(st.Chan) {
+							has = true
+						}
+					}
+				}
+			}
+		}
+		fname := p.FuncName(fn)
+		if !has || fname == "Conn.timeoutLoop" {
+			continue
+		}
+		n++
+		p.forAllPaths(r, rule, fn, "context expiry while blocked closes the connection", Opts{},
+			"when a blocking wait is left through its ctx.Done() case, the connection is closed (closeTransport/close) before the error is returned: 'on any error from any method, the connection is closed … this applies to context expirations as well'",
+			func(pa *Path) (bool, string) {
+				for i, e := range pa.Events {
+					if e.Kind == "select" && e.Blocking && e.Case >= 0 && e.Chan != nil && strings.HasPrefix(e.Chan.Key(), "call:invoke context.Context.Done@") {
+						closed := false
+						for _, x := range pa.Events[i:] {
+							if isCall(x, "Conn.closeTransport", "Conn.close") {
+								closed = true
+							}
+						}
+						if !closed {
+							return false, fname + " returns after its context ended without closing the connection"
+						}
+						if pa.End == "return" && retErr(pa) == "nil" {
+							return false, "nil returned although the context ended"
+						}
+					}
+				}
+				return true, ""
+			})
+	}
+	r.Floor(rule, 2)
+}
+
 func runC10(p *Program, r *Report) {
+	c10closes(p, r, "C10.closes")
 	armingRules(p, r, false, true)
 	armingRules(p, r, true, false)
 	c10senders(p, r, "C10.senders")
